@@ -21,7 +21,7 @@ def run_variant(v, props, tier):
     try:
         shutil.copytree("/repo/ptera", d + "/ptera")
         p = f"{d}/ptera/{v['file']}"
-        s = open(p).read()
+        s = open(p).read() if v["file"] else ""
         if v.get("patch"):
             r = subprocess.run(["patch", "-p1", "-d", d, "-i", os.path.join(VERIF, v["patch"])], capture_output=True, text=True)
             if r.returncode:
@@ -52,8 +52,13 @@ def main():
     ap.add_argument("-v", action="store_true")
     a = ap.parse_args()
     import variants
+    import glob
+    seeded = []
+    for mf in sorted(glob.glob(os.path.join(VERIF, "seeded", "*", "meta.json"))):
+        m = json.load(open(mf))
+        seeded.append(dict(name="seeded:" + m["id"], file="", expect=[m["breaks_property"]], patch=os.path.relpath(os.path.join(os.path.dirname(mf), "patch.diff"), VERIF)))
     props = a.props.split(",") if a.props else implemented()
-    vs = [v for v in variants.V if not a.only or a.only in v["name"]]
+    vs = [v for v in variants.V + seeded if not a.only or a.only in v["name"]]
     bad = 0
     with ThreadPoolExecutor(a.jobs) as ex:
         for name, st, res in ex.map(lambda v: run_variant(v, props, a.tier), vs):
